@@ -12,8 +12,10 @@ DOCUMENTED = ('CCT_Error', 'TypeError', 'ValueError')
 
 def run_call(it, fn, args, kw=None):
     """-> ('ret', value) | ('exc', class name, function, line, exception object)"""
+    from .interp import Frame
+    root = Frame(it, run_call, {}, None)
     try:
-        return ('ret', it.call(None, fn, list(args), dict(kw or {})))
+        return ('ret', it.call(root, fn, list(args), dict(kw or {})))
     except PyExc as pe:
         return ('exc', type(pe.exc).__name__, pe.func, pe.line, pe.exc)
 
